@@ -258,6 +258,8 @@ pub struct VExt {
     pub claim: Claim,
     pub read_value: u8,
     pub log: Vec<(bool, u16, u8)>,
+    /// do not record accesses (machines that run millions of port cycles)
+    pub quiet: bool,
 }
 
 impl VExt {
@@ -266,7 +268,12 @@ impl VExt {
             claim,
             read_value,
             log: Vec::new(),
+            quiet: false,
         }
+    }
+    pub fn quiet(mut self) -> VExt {
+        self.quiet = true;
+        self
     }
     pub fn claims(&self, port: u16) -> bool {
         match self.claim {
@@ -279,10 +286,14 @@ impl VExt {
 
 impl IoExtender for VExt {
     fn write(&mut self, port: u16, data: u8) {
-        self.log.push((true, port, data));
+        if !self.quiet {
+            self.log.push((true, port, data));
+        }
     }
     fn read(&mut self, port: u16) -> u8 {
-        self.log.push((false, port, self.read_value));
+        if !self.quiet {
+            self.log.push((false, port, self.read_value));
+        }
         self.read_value
     }
     fn extends_port(&self, port: u16) -> bool {
